@@ -28,42 +28,75 @@ func checkStackPrimitives(r *Run) {
 			continue
 		}
 		recv := recvObj(fp, fd)
-		// the statement that changes the visitor stack: s.visitorStack = append(…) / s.visitorStack = s.visitorStack[:…]
-		var change *ast.AssignStmt
+		// the statements that change the visitor stack: `s.F = append(s.F, …)` in Enter, `s.F = s.F[…]` in Exit, for a slice
+		// field F of the context (the stack may be one slice of entries or parallel slices)
+		var changes []*ast.AssignStmt
 		ast.Inspect(fd.Body, func(x ast.Node) bool {
 			as, ok := x.(*ast.AssignStmt)
-			if !ok || change != nil {
+			if !ok || len(as.Lhs) != len(as.Rhs) {
 				return true
 			}
-			for _, lhs := range as.Lhs {
-				if sel, ok := ast.Unparen(lhs).(*ast.SelectorExpr); ok && strings.Contains(strings.ToLower(sel.Sel.Name), "stack") {
-					if id, ok := ast.Unparen(sel.X).(*ast.Ident); ok && info.Uses[id] == recv {
-						change = as
+			for i, lhs := range as.Lhs {
+				sel, ok := ast.Unparen(lhs).(*ast.SelectorExpr)
+				if !ok {
+					continue
+				}
+				if id, ok := ast.Unparen(sel.X).(*ast.Ident); !ok || info.Uses[id] != recv {
+					continue
+				}
+				if _, isSlice := info.TypeOf(sel).Underlying().(*types.Slice); !isSlice {
+					continue
+				}
+				sameField := func(e ast.Expr) bool {
+					s2, ok := ast.Unparen(e).(*ast.SelectorExpr)
+					return ok && info.Selections[s2] != nil && info.Selections[sel] != nil && info.Selections[s2].Obj() == info.Selections[sel].Obj()
+				}
+				switch rhs := ast.Unparen(as.Rhs[i]).(type) {
+				case *ast.CallExpr:
+					if fid, ok := rhs.Fun.(*ast.Ident); ok && fid.Name == "append" && len(rhs.Args) >= 2 && sameField(rhs.Args[0]) && name == "Enter" {
+						changes = append(changes, as)
+					}
+				case *ast.SliceExpr:
+					if sameField(rhs.X) && name == "Exit" {
+						changes = append(changes, as)
 					}
 				}
 			}
 			return true
 		})
 		construct := "Context." + name
-		if change == nil {
-			r.Undecide("C08-R9: Context.%s does not assign the visitor stack", name)
+		if len(changes) == 0 {
+			r.Undecide("C08-R9: Context.%s does not %s a slice field of the context", name, map[string]string{"Enter": "append to", "Exit": "shorten"}[name])
 			continue
 		}
-		conditional := len(pathConditions(fd.Body, change)) > 0
+		first := changes[0]
+		conditional := false
+		for _, ch := range changes {
+			if len(pathConditions(fd.Body, ch)) > 0 {
+				conditional = true
+			}
+			if ch.Pos() < first.Pos() {
+				first = ch
+			}
+		}
 		var earlyReturn token.Pos
 		ast.Inspect(fd.Body, func(x ast.Node) bool {
-			if rs, ok := x.(*ast.ReturnStmt); ok && rs.Pos() < change.Pos() && earlyReturn == token.NoPos {
-				earlyReturn = rs.Pos()
+			if rs, ok := x.(*ast.ReturnStmt); ok && earlyReturn == token.NoPos {
+				for _, ch := range changes {
+					if rs.Pos() < ch.Pos() {
+						earlyReturn = rs.Pos()
+					}
+				}
 			}
 			return true
 		})
 		switch {
 		case conditional:
-			r.Fail(rule, construct, change.Pos(), "Context.%s changes the visitor stack only under a condition: a handler's Enter/Exit pair is then unbalanced for some inputs, and the next Exit pops another visitor or trips the depth assertion with a panic", name)
+			r.Fail(rule, construct, first.Pos(), "Context.%s changes the visitor stack only under a condition: a handler's Enter/Exit pair is then unbalanced for some inputs, and the next Exit pops another visitor or trips the depth assertion with a panic", name)
 		case earlyReturn != token.NoPos:
 			r.Fail(rule, construct, earlyReturn, "Context.%s can return before it changes the visitor stack: the handlers' Enter/Exit pairs stay balanced only if every call pushes (pops); past the early return the next Exit panics on the depth assertion", name)
 		default:
-			r.Pass(rule, construct, change.Pos(), "changes the visitor stack on every call")
+			r.Pass(rule, construct, first.Pos(), "changes the visitor stack on every call")
 		}
 	}
 }
